@@ -370,31 +370,27 @@ func (s *clientSocket) Send(packets ...*parser.Packet) {
 func (s *clientSocket) writeWritablePackets(packets ...*parser.Packet) {
 	shouldCheckPayloadSize := s.maxPayload > 0 && s.transport.Name() == "polling" && len(packets) > 1
 	if shouldCheckPayloadSize {
-		// In original engine.io client, this variable is set to 1
-		// to have first packet type.
-		// But we omit it, since packet.EncodedLen(false) includes packet type.
+		// Encoded size of the payload collected so far: packets (including their
+		// type character, see EncodedLen) plus one separator between packets.
 		payloadSize := 0
 		total := len(packets)
-		// Range based for loop overflows the array.
-		// The check, `i < len(packets)`, needs to be made every time.
-		for i, count := 0, 0; i < len(packets); i, count = i+1, count+1 {
-			packet := packets[i]
-			if len(packet.Data) > 0 {
-				// Since we're dealing with the polling transport, supportsBinary argument is false.
-				payloadSize += packet.EncodedLen(false)
+		start := 0
+		for i, packet := range packets {
+			// Since we're dealing with the polling transport, supportsBinary argument is false.
+			size := packet.EncodedLen(false)
+			if i > start {
+				size += 1 // Separator
 			}
-			if i > 0 && int64(payloadSize) > s.maxPayload {
-				s.debug.Log("send", count, "out of", total)
-				if len(packets) > 0 {
-					s.transport.Send(packets[:i]...)
-				}
-				packets = packets[i:]
-				i = 0
-				payloadSize = 0
+			if i > start && int64(payloadSize+size) > s.maxPayload {
+				s.debug.Log("send", i-start, "out of", total)
+				s.transport.Send(packets[start:i]...)
+				start = i
+				payloadSize = packet.EncodedLen(false)
 				continue
 			}
-			payloadSize += 1 // Separator
+			payloadSize += size
 		}
+		packets = packets[start:]
 		s.debug.Log("payload size is", payloadSize, "maxPayload", s.maxPayload)
 	}
 	if len(packets) > 0 {
